@@ -1288,6 +1288,10 @@ func nodeRun(c *verifeng.Chooser, f *nodeFix, env *verifhfs.Env, mode nodeMode, 
 		script = h.c15Script(grow)
 	} else if mode.subs {
 		late := func(name string) nodeEv {
+			if name == "S2" && mode.long {
+				// a backlog of more than 2000 blocks
+				return nodeEv{"a subscriber registers with the backlog above height 1", func() { h.subscribe(name, 1) }}
+			}
 			return nodeEv{"a subscriber registers with the backlog above the fork point", func() { h.subscribe(name, uint32(f.forkFrom)) }}
 		}
 		script = append(script,
